@@ -74,6 +74,50 @@ def skip_rule(crate, prop, rule="C02.R2"):
                                 (fn_matches(term, r"vec::Vec::<T, A>::push$") and "TokenStream" in (term.get("arg_tys") or [""])[0]):
                             ff, ll = M.user_span(term["span"])
                             r.fail(prop, "emitted-on-skip %s" % fold(body.path), "%s happens on the skip == true side" % (term["fn"].get("res") or term["fn"]["path"]), ff, ll)
+    # nothing is emitted *before* the flag has been looked at either: every emission in a function that reads attribute
+    # values lies behind the not-skipped edge of one of its skip tests (an early `type = ".."` return in front of the test
+    # emits a member that serde leaves out)
+    for body in crate.bodies:
+        if fold(body.path).endswith("::from_attrs"):
+            continue
+        sites = [(b, t) for b, t in body.calls() if re.search(r"(FieldAttr|VariantAttr)::from_attrs$", (t.get("fn") or {}).get("path", "")) and not body.is_cleanup(b)]
+        if not sites:
+            continue
+        from rules.C16 import _value_locals
+        vals = set()
+        for b, t in sites:
+            vals |= set(_value_locals(body, t))
+        falses = []
+        for blk in range(body.n):
+            term = body.term(blk)
+            if term["k"] != "switch" or body.is_cleanup(blk):
+                continue
+            pl = op_place(term["discr"])
+            cand = [pl] if pl else []
+            if pl:
+                for db, i, d in M.def_sites(body, pl["l"]):
+                    if i != "term" and d["rv"]["k"] == "use":
+                        p2 = op_place(d["rv"]["op"])
+                        if p2:
+                            cand.append(p2)
+            if any(p["l"] in vals and ".skip" in p["p"] for p in cand):
+                f_t = [tg for v, tg in term["targets"] if v == 0]
+                if f_t:
+                    falses.append(f_t[0])
+        if not falses:
+            continue
+        for x in range(body.n):
+            term = body.term(x)
+            if term["k"] != "call" or body.is_cleanup(x):
+                continue
+            if fn_matches(term, r"deps::Dependencies::(push|append_from)$") or \
+                    (fn_matches(term, r"vec::Vec::<T, A>::push$") and "TokenStream" in (term.get("arg_tys") or [""])[0]):
+                if not any(body.dominates(ft, x) for ft in falses):
+                    ff, ll = M.user_span(term["span"])
+                    r.inst(fn=fold(body.path), emission=term["fn"]["path"].split("::")[-1], where="%s:%s" % (ff, ll), behind_skip_test=False)
+                    r.fail(prop, "emitted-before-skip-test %s" % fold(body.path),
+                           "%s is reachable without passing the not-skipped edge of any `skip` test: a member that is `#[serde(skip)]` and has e.g. `#[ts(type = \"..\")]` is still emitted (`[number, string, string]` where serde writes two elements)" % (term["fn"].get("res") or term["fn"]["path"]),
+                           ff, ll)
     r.floor = 7
     return r
 
